@@ -229,7 +229,7 @@ def print_assumptions(props_rel, log):
 def coq_eval_shard(path):
     t = time.time()
     d = os.path.dirname(path)
-    rc, out = sh(["coqc", "-Q", TH, "CN", "-w", "-all", os.path.basename(path)], cwd=d, timeout=3000)
+    rc, out = sh(["coqc", "-noglob", "-Q", TH, "CN", "-w", "-all", os.path.basename(path)], cwd=d, timeout=3000)
     flat = re.sub(r"\s+", " ", out)
     m = re.search(r"mism = (\[.*?\])\s*:", flat)
     if rc != 0 or not m:
@@ -367,7 +367,7 @@ def run_check(pid, tier="quick", seed=None, replay=None):
     shards = []
     for res in results:
         for g, gi in res["groups"].items():
-            for s in gi["shards"]:
+            for s in (gi.get("shards") or []):
                 shards.append((res, g, os.path.join(res["_dir"], s)))
     mism_total, mism_cases = 0, []
     # the case files import model modules that need not be in the cone of the Props file: build them first
@@ -375,7 +375,7 @@ def run_check(pid, tier="quick", seed=None, replay=None):
     for res in results:
         heads = sorted(glob.glob(os.path.join(res["_dir"], "defs_*.v")))
         for g, gi in res["groups"].items():
-            heads += [os.path.join(res["_dir"], x) for x in gi["shards"][:1]]
+            heads += [os.path.join(res["_dir"], x) for x in (gi.get("shards") or [])[:1]]
         for hf in heads:
             try:
                 src = strip_comments(open(hf).read(200000))
